@@ -86,7 +86,14 @@ def instances(tier, seed):
         out.append(dict(label=f'dsg_sequential {t} mid_cond k=3 n=4', kind='dsg', type=t, k=3, n=4, placement='mid_cond'))
         out.append(dict(label=f'dsg_sequential {t} first_cond k=3 n=3', kind='dsg', type=t, k=3, n=3, placement='first_cond'))
         out.append(dict(label=f'dsg_sequential {t} last_cond k=3 n=3', kind='dsg', type=t, k=3, n=3, placement='last_cond'))
+        out.append(dict(label=f'dsg_sequential {t} two_groups k=4 n=2', kind='dsg', type=t, k=4, n=2, placement='two_groups'))
+        out.append(dict(label=f'dsg_sequential {t} two_groups_late k=4 n=2', kind='dsg', type=t, k=4, n=2, placement='two_groups_late'))
+        out.append(dict(label=f'dsg_sequential {t} two_groups_rev k=5 n=3 (canonical order)', kind='dsg', type=t, k=5, n=3, placement='two_groups_rev'))
+        out.append(dict(label=f'dsg_sequential {t} base_after_copy k=4 n=2', kind='dsg', type=t, k=4, n=2, placement='base_after_copy'))
+        out.append(dict(label=f'dsg_sequential {t} shared_opts k=2 n=3', kind='dsg', type=t, k=2, n=3, placement='shared_opts'))
         if tier == 'thorough':
+            for pl_ in ('two_groups', 'two_groups_late', 'base_after_copy'):
+                out.append(dict(label=f'dsg_sequential {t} {pl_} k=4 n=3', kind='dsg', type=t, k=4, n=3, placement=pl_))
             out.append(dict(label=f'dsg_sequential {t} hier k=3 n=3', kind='dsg', type=t, k=3, n=3, placement='hier'))
             out.append(dict(label=f'dsg_sequential {t} hier_rev k=3 n=3', kind='dsg', type=t, k=3, n=3, placement='hier_rev'))
             out.append(dict(label=f'dsg_sequential {t} mutex k=3 n=3', kind='dsg', type=t, k=3, n=3, placement='mutex'))
@@ -402,9 +409,18 @@ def _is_cond(placement, i, k):
 
 def _groups(k, placement):
     """which choices one constraint covers: by default all of them; two_groups: two separate constraints"""
-    if placement == 'two_groups':
+    if placement in ('two_groups', 'two_groups_late'):
         return [list(range(0, 2)), list(range(2, k))]
+    if placement == 'two_groups_rev':   # the larger group is declared first (it may resolve choices on declaration)
+        return [list(range(2, k)), list(range(0, 2))]
+    if placement == 'base_after_copy':  # only the first group is declared on the graph under test
+        return [list(range(0, 2))]
+    if placement == 'shared_opts':
+        return [list(range(k))]
     return [list(range(k))]
+
+
+_PARENTS = [None]
 
 
 def _mk_dsg(t, k, n, placement):
@@ -417,12 +433,20 @@ def _mk_dsg(t, k, n, placement):
     g = BasicDSG()
     root = NamedNode('R')
     choices, opts, parents = [], [], []
+    shared = [NamedNode(f'S{j}') for j in range(n)]
     for i in range(k):
         parents.append(NamedNode(f'P{i}'))
-        opts.append([NamedNode(f'O{i}_{j}') for j in range(n)])
+        # shared_opts: all constrained choices select from the same option node objects
+        opts.append(list(shared) if placement == 'shared_opts' else [NamedNode(f'O{i}_{j}') for j in range(n)])
     extra = None
     par = _parents(k, placement)
-    if placement in ('mid_cond', 'first_cond', 'last_cond', 'first_cond_or'):
+    if placement == 'shared_opts':
+        # the first constrained choice is conditional (decided after the permanent later ones in the canonical walk)
+        xo = [NamedNode('X0'), NamedNode('X1')]
+        extra = (g.add_selection_choice('A_X', root, xo), xo)
+        for i in range(k):
+            g.add_edges([((xo[1] if i == 0 else root), parents[i])])
+    elif placement in ('mid_cond', 'first_cond', 'last_cond', 'first_cond_or'):
         # some constrained choices hang under option 1 of an extra (unconstrained) choice, the others are permanent:
         # mid_cond: the ones in between the first and the last; first_cond: the first; last_cond: the last;
         # first_cond_or: the first under option 1 only, the others under BOTH options of the extra choice
@@ -448,11 +472,22 @@ def _mk_dsg(t, k, n, placement):
     for i in range(k):
         choices.append(g.add_selection_choice(f'C{i}', parents[i], opts[i]))
     g = g.set_start_nodes({root})
-    for grp in _groups(k, placement):
+    for k_grp, grp in enumerate(_groups(k, placement)):
+        if k_grp > 0 and placement == 'two_groups_late':
+            # the design space is explored a little between the two declarations (results discarded)
+            nxt_ = list(g.get_ordered_next_choice_nodes())  # (the first group may already have been resolved)
+            if nxt_:
+                g.get_for_apply_selection_choice(nxt_[0], g.get_option_nodes(nxt_[0])[0])
+            _ = [g.get_option_nodes(c_) for c_ in nxt_]
         g = g.constrain_choices(_ctype(t), [choices[i] for i in grp])
         con = g.get_choice_constraints()[-1]
-        if list(con.nodes) != [choices[i] for i in grp]:
-            raise RuntimeError('harness: constraint order differs from construction order')
+        if sorted(map(str, con.nodes)) != sorted(str(choices[i]) for i in grp):
+            raise RuntimeError('harness: constraint covers other choices than declared')
+    if placement == 'base_after_copy':
+        # a copy of the graph gets a further constraint; the graph under test must not be affected
+        variant = g.copy().constrain_choices(_ctype(t), [choices[i] for i in range(2, k)])
+        _ = variant.get_choice_constraints()
+    _PARENTS[0] = parents
     return g, choices, opts, extra
 
 
@@ -473,7 +508,14 @@ def _dsg_oracle(t, k, n, placement):
                 if pred_py(t, list(tup)):
                     out.add(tuple(tup))
         return out
-    if placement == 'two_groups':
+    if placement == 'shared_opts':
+        for xsel in (0, 1):
+            rng = [(range(n) if (xsel == 1 or i > 0) else [-1]) for i in range(k)]
+            for tup in itertools.product(*rng):
+                if pred_py(t, list(tup)):
+                    out.add(tuple(tup))
+        return out
+    if placement in ('two_groups', 'two_groups_late', 'two_groups_rev', 'base_after_copy'):
         for tup in itertools.product(range(n), repeat=k):
             if all(pred_py(t, [tup[i] for i in grp]) for grp in _groups(k, placement)):
                 out.add(tuple(tup))
@@ -494,6 +536,7 @@ def _dsg_oracle(t, k, n, placement):
 def _dsg_history(t, k, n, placement, which_sym, pick_sym):
     g, choices, opts, extra = _mk_dsg(t, k, n, placement)
     order = []
+    picked = {}
     step = 0
     n_steps = k+(1 if extra else 0)
     while not g.final and step < n_steps:
@@ -506,11 +549,23 @@ def _dsg_history(t, k, n, placement, which_sym, pick_sym):
             return 'dead', None, order, g.feasible
         o = o_nodes[pick_sym[step]]
         order.append(choices.index(c) if c in choices else -1)
+        if c in choices:
+            picked[choices.index(c)] = [j for j, o_ in enumerate(opts[choices.index(c)]) if o_ is o]
         g = g.get_for_apply_selection_choice(c, o)
         step += 1
     # read the final assignment from the instance: which option node of each choice is present
     tup = []
     nodes = set(g.graph.nodes)
+    if placement == 'shared_opts':
+        # the choices select from the same node objects: the assignment is read from the edge that replaces each
+        # applied choice (origin -> selected option); every shared node present must be explained by such an edge
+        parents = _PARENTS[0]
+        for i in range(k):
+            tup.append([j for j, o in enumerate(opts[i]) if o in nodes and parents[i] in nodes and g.graph.has_edge(parents[i], o)])
+        present = {j for j, o in enumerate(opts[0]) if o in nodes}
+        if present != {j for v in tup for j in v}:
+            return 'done', [[0, 1]]*k, order, bool(g.feasible and g.final)  # reported as "not one option"
+        return 'done', tup, order, bool(g.feasible and g.final)
     for i in range(k):
         tup.append([j for j, o in enumerate(opts[i]) if o in nodes])
     return 'done', tup, order, bool(g.feasible and g.final)
@@ -518,12 +573,14 @@ def _dsg_history(t, k, n, placement, which_sym, pick_sym):
 
 def _run_dsg(inst, res):
     t, k, n, placement = inst['type'], inst['k'], inst['n'], inst['placement']
-    n_steps = k+(1 if placement in ('mutex', 'mid_cond', 'first_cond', 'last_cond', 'first_cond_or') else 0)
+    n_steps = k+(1 if placement in ('mutex', 'mid_cond', 'first_cond', 'last_cond', 'first_cond_or', 'shared_opts') else 0)
     which = [sym_int(f'w{i}') for i in range(n_steps)]
     pick = [sym_int(f'p{i}') for i in range(n_steps)]
     pre = []
     for i in range(n_steps):
         pre += [which[i].e >= 0, which[i].e < n_steps, pick[i].e >= 0, pick[i].e < max(n, k)]
+        if placement == 'two_groups_rev':  # five choices: only the canonical order of taking choices (stated bound)
+            pre.append(which[i].e == 0)
 
     def run():
         try:
@@ -558,7 +615,7 @@ def _run_dsg(inst, res):
                 continue
             v = tuple(x[0] if x else -1 for x in tup)
             got_feasible.add(v)
-            if not pred_py(t, list(v)):
+            if not all(pred_py(t, [v[i] for i in grp]) for grp in _groups(k, placement)):
                 _viol(res, 'dsg_sequential', dict(kind='unsound_tuple', type=t, k=k, n=n, placement=placement),
                       dict(type=t, k=k, n=n, placement=placement), dict(order=order, tuple=list(v)), 'feasible final instance',
                       f'{t} predicate violated')
